@@ -45,6 +45,9 @@ def gen_ops(tier, r):
     for s0, e0 in [(UMAX - 10**5, UMAX), (UMAX - 40, UMAX), (UMAX, UMAX), (MAXPRIME64, UMAX), (2**32 - 1000, 2**32 + 1000),
                    (UMAX - 3 * 10**5, UMAX - 1)]:
         ops.append(("top", f"count {s0} {e0} 16 {r.choice([1, 3])} {r.choice([0, 30030])}"))
+    # more than one segment below 2^64-1 (16 KiB sieve = 491520 numbers per segment)
+    ops.append(("top-multi-segment", f"count {UMAX - 600000} {UMAX} 16 1 0"))
+    ops.append(("top-multi-segment", f"count {UMAX - 1000000 - r.randrange(0, 1000)} {UMAX - r.randrange(0, 40)} 16 {r.choice([1, 2])} {r.choice([0, 300000])}"))
     # (e) products of sieving primes on segment edges through the counting path
     for kib in ([16, 33] if q else [16, 33, 100, 256]):
         S0 = sieve_bytes(10**7, kib)
